@@ -16,8 +16,8 @@
 -/
 import Driver.Proto
 import FcModel.Spec.C19
-namespace Fc.Drv
-open Fc
+namespace Fc.Drv.C19
+open Fc Fc.C19
 
 def pSlot : P Slot := do
   let t ← tok
@@ -166,4 +166,7 @@ def handleC19 (op : String) : Option (P String) :=
   | "c19ladder" => some opC19Ladder
   | _ => none
 
-end Fc.Drv
+end Fc.Drv.C19
+
+/-- re-export for Driver/Main.lean -/
+def Fc.Drv.handleC19 := Fc.Drv.C19.handleC19
